@@ -158,6 +158,20 @@ def analyse(fn, lib_stream_fns, prop, res):
                                 its.add((x[0], x[1], x[2], tk, x[4], x[5]))
                     elif lit(v) == 0:
                         zz.add(tk)
+                    elif isinstance(v, dict) and v.get("k") == "cond":
+                        # ret = (nitems == 1 ? n : 0): the CFG has already split on the condition, and a state that still holds the
+                        # transfer as pending came through the edge on which the test did NOT establish success - it receives the other arm
+                        c = strip(v["c"])
+                        for x in list(its):
+                            one = (frozenset([x]), None, frozenset())
+                            if x not in refine(one, c, True)[0]:
+                                fail_arm = v["b"]
+                            elif x not in refine(one, c, False)[0]:
+                                fail_arm = v["a"]
+                            else:
+                                continue
+                            if lit(fail_arm) in (0, -1):
+                                zz.add(tk)
                 sa.walk(e, f)
                 items, zeroed = frozenset(its), frozenset(zz)
                 if e.get("k") == "return":
@@ -350,7 +364,8 @@ def run(prop="C17", tier="quick"):
     res["findings"] = [f for f in res["findings"] if f.file != FIXTURE]
     exp = {"fix_old_fprintf_memory": "fwrite-unchecked", "fix_old_fprintf_reps": "fwrite-unchecked",
            "fix_raw_count": "fwrite-unchecked", "fix_fread_short": "fread-unchecked",
-           "fix_good_ferror": None, "fix_good_count": None, "fix_good_zeroed": None}
+           "fix_good_ferror": None, "fix_good_count": None, "fix_good_zeroed": None,
+           "fix_stream_cond_expr": None, "fix_stream_cond_expr_bad": "fwrite-unchecked"}
     for fname, sig in exp.items():
         got = [f.signature for f in fx if f.function == fname]
         if sig is None and got:
